@@ -1278,12 +1278,14 @@ class Array:
         legs = [LegCharge.from_add_charge([leg, leg2], chinfo) for (leg, leg2) in zip(self.legs, add_legs)]
         if qtotal is None:
             for block, slices, _, _ in self:
+                if not np.any(np.abs(block) > QCUTOFF):
+                    continue  # an all-zero block tells nothing about the charge
                 leg_slices = []
                 for leg, sl in zip(add_legs, slices):
                     mask = np.zeros(leg.ind_len, np.bool_)
                     mask[sl] = True
                     leg_slices.append(leg.project(mask)[2])
-                qtotal = detect_qtotal(self.to_ndarray(), leg_slices)
+                qtotal = np.concatenate((self.qtotal, detect_qtotal(block, leg_slices)))
                 break
             else:
                 raise ValueError("no non-zero entry: can't detect qtotal")
